@@ -344,6 +344,24 @@ def c12(tier, rng, fam='C12'):
         b.step('inj', dir='c2s', env=env(8, m='/verif.Svc/Bidi', st=(0, 'OK'), t=[], src='cliX', dst='srv'))
         return b.q().done()
 
+    # a peer that sends more than the handler reads, and a handler that then returns
+    for kind_m in ('/verif.Svc/Bidi', '/verif.Svc/SS', '/verif.Svc/CS'):
+        for k in (1, 2, 3, 5):
+            for tail in ('', 'close', 'rst'):
+                b = B(fam, 'surplus: open, %d bodies%s, then the handler returns (%s)' % (k, ' + ' + tail if tail else '', kind_m[-4:]),
+                      rawcli=True, ser=True)
+                b.step('hops', c=301, hp=[])          # a scripted handler that does not read
+                b.step('inj', dir='c2s', env=env(1, m=kind_m, src='cliX', dst='srv', c=301))
+                for i in range(k):
+                    b.step('inj', dir='c2s', env=env(1, m=kind_m, b='s%d' % i, src='cliX', dst='srv'))
+                if tail == 'close':
+                    b.step('inj', dir='c2s', env=env(1, m=kind_m, st=(0, 'OK'), t=[], src='cliX', dst='srv'))
+                elif tail == 'rst':
+                    b.step('inj', dir='c2s', env=env(1, m=kind_m, r='RST_STREAM', src='cliX', dst='srv'))
+                b.step('hop', c=301, h=ret(code=0))
+                b.q()
+                b.step('inj', dir='c2s', env=env(7, m='/verif.Svc/Unary', b='probe', src='cliX', dst='srv', c=99))
+                out.append(b.q().done())
     for s in syms:
         out.append(scn([s], '1: %s/%d' % s))
     pairs = list(itertools.product(syms, syms))
@@ -411,6 +429,43 @@ def c13(tier, rng, fam='C13'):
         b.q()
         return b.done()
 
+    # replies arriving back to back (queued, then released together): k answers to one unary call,
+    # k unread answers on a stream whose caller then cancels or just stops reading
+    for k in (2, 3, 4, 6):
+        for stats in (0, 1):
+            b = B(fam, 'burst: %d replies to one unary call, stats=%d' % (k, stats), rawsrv=True, ser=True, manual=True, cstats=stats)
+            b.step('auto', dir='c2s', on=True)
+            b.step('ucall', c=1, pay='q')
+            for i in range(k):
+                b.step('inj', dir='s2c', env=A['body_trailer'](1, METH['unary']))
+            b.step('dlv', dir='s2c', n=-1)
+            b.q()
+            b.step('ucall', c=3, pay='probe', to=1000)
+            b.step('inj', dir='s2c', env=env(2, m=METH['unary'], b='pong', t=[]))
+            b.step('dlv', dir='s2c', n=-1)
+            b.step('adv', ms=1001)
+            b.q()
+            b.step('fault', what='cread')
+            out.append(b.q().done())
+            for how in ('cancel',):
+                b = B(fam, 'burst: %d unread stream responses then %s, stats=%d' % (k, how, stats), rawsrv=True, ser=True, manual=True, cstats=stats)
+                b.step('auto', dir='c2s', on=True)
+                b.step('sopen', c=2, kind='ss')
+                b.step('send', c=2, pay='x')
+                for i in range(k):
+                    b.step('inj', dir='s2c', env=A['body'](1, METH['ss']))
+                b.step('dlv', dir='s2c', n=-1)
+                if how == 'cancel':
+                    b.step('cancel', c=2)
+                    b.q()
+                b.step('ucall', c=3, pay='probe', to=1000)
+                b.step('inj', dir='s2c', env=env(2, m=METH['unary'], b='pong', t=[]))
+                b.step('dlv', dir='s2c', n=-1)
+                b.step('adv', ms=1001)
+                if how == 'cancel':
+                    b.q()
+                b.step('fault', what='cread')
+                out.append(b.q().done())
     for s in syms:
         out.append(scn([s], '1: %s/%d' % s))
     pairs = list(itertools.product(syms, syms))
@@ -542,7 +597,9 @@ def c14(tier, rng, fam='C14'):
         b = B(fam, 'history #%d of %d RPCs with all outcomes' % (si, nrpc), ser=bool(si % 2))
         for c in range(1, nrpc + 1):
             kind = rng.choice(['unary', 'unary', 'bidi', 'cs', 'ss'])
-            outc = rng.choice(['ok', 'ok', 'herr', 'cancel', 'deadline', 'earlyret', 'failopen'])
+            outc = rng.choice(['ok', 'ok', 'herr', 'cancel', 'deadline', 'earlyret', 'failopen', 'failsend'])
+            if outc == 'failsend' and kind in ('unary', 'ss'):
+                outc = 'ok' 
             if outc == 'failopen':
                 b.step('fault', what='cwrite')
                 if kind == 'unary':
@@ -573,6 +630,12 @@ def c14(tier, rng, fam='C14'):
                 elif outc == 'earlyret':
                     b.step('sopen', c=c, kind=kind, hp=[ret()])
                     b.step('send', c=c, pay='x').step('send', c=c, pay='y').step('close', c=c).step('recv', c=c, n=2)
+                elif outc == 'failsend':
+                    # one write is refused while the connection stays up: the stream dies by its own Send
+                    b.step('sopen', c=c, kind=kind, hp=[dict(o='ctxwait'), ret(code=1, msg='gone')])
+                    b.step('fault', what='cwrite1')
+                    b.step('send', c=c, pay='x')
+                    b.step('recv', c=c)
                 elif outc == 'cancel':
                     b.step('sopen', c=c, kind=kind, hp=[dict(o='ctxwait'), ret(code=1, msg='gone')])
                     b.step('send', c=c, pay='x')
